@@ -62,7 +62,8 @@ where
   match rx.recv_timeout(limit) {
     Ok(()) => "ok",
     Err(_) => {
-      out.lock().push(json!({"k":"hung","what":"operation did not return"}).to_string());
+      let cur = seq::CURRENT_OP.lock().clone();
+      out.lock().push(json!({"k":"hung","what":"operation did not return","op":cur}).to_string());
       "hung"
     }
   }
